@@ -270,6 +270,9 @@ def gen(rng, tier, prop):
         'session': {'syntax': rng.choice(['advanced', 'advanced', 'pcjr', 'tandy'])},
         'world': {'sleep0_us': rng.choice([0, 50, 700])},
     }
+    if rng.random() < 0.2:
+        # text files read and written through a text encoding (another stream object to save and restore)
+        cfg['session']['textfile_encoding'] = rng.choice(['utf-8', 'latin-1', 'cp437'])
     return {'machine': NAME, 'prop': prop, 'cfg': cfg, 'ops': ops}
 
 
